@@ -208,7 +208,9 @@ def parse_vtt_pct(value: str):
   """Parse a WebVTT precentage value"""
   m = _VTT_PCT_RE.fullmatch(value)
   if m:
-    return round(float(m.group(1)))
+    pct = round(float(m.group(1)))
+    if pct <= 100:
+      return pct
   return None
 
 # integer has at most 20 digits
